@@ -27,6 +27,7 @@ import (
 	"seehuhn.de/go/sfnt/cmap"
 	"seehuhn.de/go/sfnt/glyf"
 	"seehuhn.de/go/sfnt/glyph"
+	"seehuhn.de/go/sfnt/mac"
 	"seehuhn.de/go/sfnt/opentype/coverage"
 	"seehuhn.de/go/sfnt/opentype/gdef"
 	"seehuhn.de/go/sfnt/opentype/gtab"
@@ -69,6 +70,11 @@ func (f *Font) Subset(glyphs []glyph.ID) *Font {
 				continue
 			}
 			c = s.SubsetCMap(c)
+			if key.PlatformID == 1 {
+				// Get has translated the character codes from MacRoman to
+				// unicode.  Translate them back before encoding.
+				c = macRomanCodes(c)
+			}
 			res.CMapTable[key] = c.Encode(key.Language)
 		}
 	}
@@ -139,6 +145,28 @@ func (s *subsetter) SubsetCMap(c cmap.Subtable) cmap.Subtable {
 		return res
 	default:
 		panic(fmt.Sprintf("sfnt: unsupported cmap format %T", c))
+	}
+}
+
+// macRomanCodes replaces unicode character codes with MacRoman character
+// codes.  This is the inverse of the translation which cmap.Table.Get applies
+// to subtables for the Macintosh platform.
+func macRomanCodes(c cmap.Subtable) cmap.Subtable {
+	switch c := c.(type) {
+	case cmap.Format4:
+		res := cmap.Format4{}
+		for code, gid := range c {
+			res[uint16(mac.Encode(string(rune(code)))[0])] = gid
+		}
+		return res
+	case cmap.Format12:
+		res := cmap.Format12{}
+		for code, gid := range c {
+			res[uint32(mac.Encode(string(rune(code)))[0])] = gid
+		}
+		return res
+	default:
+		return c
 	}
 }
 
